@@ -4,7 +4,9 @@ package gridx
 
 import (
 	"fmt"
+	"os"
 	"sort"
+	"strings"
 
 	_ "github.com/flowmatters/openwater-core/models"
 	"github.com/flowmatters/openwater-core/sim"
@@ -144,6 +146,19 @@ type Enum struct {
 }
 
 func NewEnum(id string, spaces []*Space) *Enum {
+	if only := os.Getenv("VERIF_ONLY"); only != "" { // development aid: restrict to spaces whose name contains the string
+		var keep []*Space
+		for _, s := range spaces {
+			n := s.Name
+			if n == "" {
+				n = s.Model
+			}
+			if strings.Contains(n, only) {
+				keep = append(keep, s)
+			}
+		}
+		spaces = keep
+	}
 	e := &Enum{ID: id, Spaces: spaces}
 	o := int64(0)
 	for _, s := range spaces {
